@@ -158,20 +158,33 @@ def putCell (b : Board) (s : Sq) (x : Cell) : Board := { b with r := b.r.put s x
 def xorHash (b : Board) (h : BB) : Board := { b with hash := b.hash ^^^ h }
 def setCastling (b : Board) (r : Rights) : Board := { b with r := { b.r with castling := r } }
 def setEp (b : Board) (e : Option Sq) : Board := { b with r := { b.r with ep := e } }
+/-- counters and side to move after a move -/
+def setTurn (b : Board) (mc : Nat) (side : Color) (mn : Nat) : Board :=
+  { b with r := { b.r with mc := mc, side := side, mn := mn } }
+/-- clearing of the en-passant mark at the start of `do_make_move` -/
+def clearEp (b : Board) : Board :=
+  match b.r.ep with
+  | some p => (b.xorHash (zEnpassant p)).setEp none
+  | none => b
+/-- `b.all = b.white | b.black` -/
+def refreshAll (b : Board) : Board := { b with all := b.white ||| b.black }
+/-- the field restores at the end of `do_unmake_move` -/
+def restore (b : Board) (hash : BB) (castling : Rights) (ep : Option Sq) (mc : Nat) (side : Color) (mn : Nat) : Board :=
+  { b with hash := hash, r := { b.r with castling := castling, ep := ep, mc := mc, side := side, mn := mn } }
 end Board
+
+/-- the loop of `update_castling`: drop every right one of whose home squares changed -/
+def castlingAfter (r : Rights) (change : BB) : Rights :=
+  [(Color.white, Side.queen), (.white, .king), (.black, .queen), (.black, .king)].foldl
+    (fun r cs => if (change &&& castlingSrcs cs.1 cs.2).nonEmpty then rWithout r cs.1 cs.2 else r) r
 
 /-- `update_castling` -/
 def updateCastling (b : Board) (change : BB) : Board :=
   if (change &&& castlingAllSrcs).isEmpty then b
-  else
-    let step (r : Rights) (cs : Color × Side) : Rights :=
-      if (change &&& castlingSrcs cs.1 cs.2).nonEmpty then rWithout r cs.1 cs.2 else r
-    let castling := [(Color.white, Side.queen), (.white, .king), (.black, .queen), (.black, .king)].foldl step b.r.castling
-    if castling ≠ b.r.castling then
-      let b1 := b.xorHash (zCastling b.r.castling)
-      let b2 := b1.setCastling castling
-      b2.xorHash (zCastling castling)
-    else b
+  else if castlingAfter b.r.castling change ≠ b.r.castling then
+    ((b.xorHash (zCastling b.r.castling)).setCastling (castlingAfter b.r.castling change)).xorHash
+      (zCastling (castlingAfter b.r.castling change))
+  else b
 
 /-- `do_make_pawn_double::<C>` -/
 def makePawnDouble (c : Color) (b : Board) (mv : Move) (change : BB) (inv : Bool) : Board :=
@@ -241,50 +254,51 @@ def makeCastlingQ (c : Color) (b : Board) (inv : Bool) : Board :=
 
 def satInc (n : Nat) : Nat := if n ≥ 65535 then 65535 else n + 1
 
-/-- `do_make_move::<C>` with `C::COLOR = b.r.side` (`make_move_unchecked`) -/
-def makeMove (b0 : Board) (mv : Move) : Board × RawUndo :=
-  let c := b0.r.side
+/-- the `match mv.kind` of `do_make_move::<C>`; `b` has its en-passant mark already cleared,
+`dstCell` was read before any modification -/
+def makeBody (c : Color) (b : Board) (mv : Move) (dstCell : Cell) : Board :=
   let srcCell := mv.cell
-  let dstCell := b0.get mv.dst
-  let undo : RawUndo :=
-    { hash := b0.hash, dstCell := dstCell, castling := b0.r.castling, ep := b0.r.ep,
-      mc := b0.r.mc, mn := b0.r.mn }
   let src := BB.single mv.src
   let dst := BB.single mv.dst
   let change := src ||| dst
   let pawn := Cell.mk c .pawn
-  let b := match b0.r.ep with
-    | some p => (b0.xorHash (zEnpassant p)).setEp none
-    | none => b0
-  let b := match mv.kind with
-    | .simple =>
-      let b := (b.putCell mv.src Cell.empty).putCell mv.dst srcCell
-      let b := b.xorHash (zPieces srcCell mv.src ^^^ zPieces srcCell mv.dst ^^^ zPieces dstCell mv.dst)
-      let b := b.xorColor c change
-      let b := b.xorPiece srcCell change
-      let b := b.andNotColor c.inv dst
-      let b := b.andNotPiece dstCell dst
-      if srcCell ≠ pawn then updateCastling b change else b
-    | .double => makePawnDouble c b mv change false
-    | .promN | .promB | .promR | .promQ =>
-      let promote := Cell.mk c (mv.kind.promote.getD .queen)
-      let b := (b.putCell mv.src Cell.empty).putCell mv.dst promote
-      let b := b.xorHash (zPieces srcCell mv.src ^^^ zPieces promote mv.dst ^^^ zPieces dstCell mv.dst)
-      let b := b.xorColor c change
-      let b := b.xorPiece pawn src
-      let b := b.xorPiece promote dst
-      let b := b.andNotColor c.inv dst
-      let b := b.andNotPiece dstCell dst
-      updateCastling b change
-    | .castleK => makeCastlingK c b false
-    | .castleQ => makeCastlingQ c b false
-    | .null => b
-    | .ep => makeEnpassant c b mv change false
-  let mc' := if dstCell ≠ Cell.empty || srcCell = pawn then 0 else satInc b.r.mc
-  let mn' := if c = .black then satInc b.r.mn else b.r.mn
-  let b := { b with r := { b.r with mc := mc', side := c.inv, mn := mn' } }
-  let b := b.xorHash zMoveSide
-  ({ b with all := b.white ||| b.black }, undo)
+  match mv.kind with
+  | .simple =>
+    let b := (b.putCell mv.src Cell.empty).putCell mv.dst srcCell
+    let b := b.xorHash (zPieces srcCell mv.src ^^^ zPieces srcCell mv.dst ^^^ zPieces dstCell mv.dst)
+    let b := b.xorColor c change
+    let b := b.xorPiece srcCell change
+    let b := b.andNotColor c.inv dst
+    let b := b.andNotPiece dstCell dst
+    if srcCell ≠ pawn then updateCastling b change else b
+  | .double => makePawnDouble c b mv change false
+  | .promN | .promB | .promR | .promQ =>
+    let promote := Cell.mk c (mv.kind.promote.getD .queen)
+    let b := (b.putCell mv.src Cell.empty).putCell mv.dst promote
+    let b := b.xorHash (zPieces srcCell mv.src ^^^ zPieces promote mv.dst ^^^ zPieces dstCell mv.dst)
+    let b := b.xorColor c change
+    let b := b.xorPiece pawn src
+    let b := b.xorPiece promote dst
+    let b := b.andNotColor c.inv dst
+    let b := b.andNotPiece dstCell dst
+    updateCastling b change
+  | .castleK => makeCastlingK c b false
+  | .castleQ => makeCastlingQ c b false
+  | .null => b
+  | .ep => makeEnpassant c b mv change false
+
+/-- `do_make_move::<C>` with `C::COLOR = b.r.side` (`make_move_unchecked`).
+The counters are read from the board before the move (nothing in between writes them). -/
+def makeMove (b0 : Board) (mv : Move) : Board × RawUndo :=
+  let c := b0.r.side
+  let dstCell := b0.get mv.dst
+  let undo : RawUndo :=
+    { hash := b0.hash, dstCell := dstCell, castling := b0.r.castling, ep := b0.r.ep,
+      mc := b0.r.mc, mn := b0.r.mn }
+  let b := makeBody c b0.clearEp mv dstCell
+  let mc' := if dstCell ≠ Cell.empty || mv.cell = Cell.mk c .pawn then 0 else satInc b0.r.mc
+  let mn' := if c = .black then satInc b0.r.mn else b0.r.mn
+  (((b.setTurn mc' c.inv mn').xorHash zMoveSide).refreshAll, undo)
 
 /-- `do_unmake_move::<C>` with `C::COLOR = b.r.side.inv` (`unmake_move_unchecked`) -/
 def unmakeMove (b : Board) (mv : Move) (u : RawUndo) : Board :=
@@ -312,8 +326,6 @@ def unmakeMove (b : Board) (mv : Move) (u : RawUndo) : Board :=
     | .castleQ => makeCastlingQ c b true
     | .null => b
     | .ep => makeEnpassant c b mv change true
-  let b := { b with hash := u.hash,
-                    r := { b.r with castling := u.castling, ep := u.ep, mc := u.mc, side := c, mn := u.mn } }
-  { b with all := b.white ||| b.black }
+  (b.restore u.hash u.castling u.ep u.mc c u.mn).refreshAll
 
 end Owl.Impl
